@@ -1,7 +1,548 @@
-//! C03 harness module (not implemented yet).
+//! C03: SoftSpoken OT extension delivers exactly the chosen message.
+//! Real SoftSpokenOTReceiver::process / SoftSpokenOTSender::process / generate_all_but_one_seed_ot vs the
+//! extracted model (coq/Model/SoftSpoken.v) with the real merlin behind the model's transcript oracle.
+//! The helpers of this module are shared with c04.rs.
+use crate::oracle::*;
 use crate::util::*;
+use merlin::Transcript;
+use rand::{Rng, RngCore};
+use sl_oblivious::constants::{
+    SOFT_SPOKEN_EXPAND_LABEL, SOFT_SPOKEN_LABEL, SOFT_SPOKEN_MATRIX_HASH_LABEL, SOFT_SPOKEN_RANDOMIZE_LABEL,
+};
+use sl_oblivious::soft_spoken::{
+    generate_all_but_one_seed_ot, ReceiverExtendedOutput, ReceiverOTSeed, Round1Output, SenderExtendedOutput,
+    SenderOTSeed, SoftSpokenOTError, SoftSpokenOTReceiver, SoftSpokenOTSender,
+};
+use sl_oblivious::verif_hooks::verif_gf128_mul;
+use std::io::Write;
 
-pub fn run(_kv: &Args) -> i32 {
-    eprintln!("c03: not implemented");
-    2
+pub const TREES: usize = 64;
+pub const Q: usize = 16;
+pub const KEYB: usize = 32;
+pub const LPB: usize = 80;
+pub const LB: usize = 64;
+pub const SB: usize = 16;
+pub const ROWS: usize = 256;
+pub const L: usize = 512;
+pub const W: usize = 3;
+pub const MSG_BYTES: usize = TREES * LPB + SB + ROWS * SB; // 9232
+pub const U_BYTES: usize = TREES * LPB;
+pub const OUT_BYTES: usize = L * W * 32;
+
+/// An rng that replays an explicit tape (the model's random tape).
+pub struct TapeRng {
+    pub tape: Vec<u8>,
+    pub pos: usize,
+}
+impl RngCore for TapeRng {
+    fn next_u32(&mut self) -> u32 {
+        let mut b = [0u8; 4];
+        self.fill_bytes(&mut b);
+        u32::from_le_bytes(b)
+    }
+    fn next_u64(&mut self) -> u64 {
+        let mut b = [0u8; 8];
+        self.fill_bytes(&mut b);
+        u64::from_le_bytes(b)
+    }
+    fn fill_bytes(&mut self, dest: &mut [u8]) {
+        for d in dest.iter_mut() {
+            *d = if self.pos < self.tape.len() { self.tape[self.pos] } else { 0 };
+            self.pos += 1;
+        }
+    }
+    fn try_fill_bytes(&mut self, dest: &mut [u8]) -> Result<(), rand::Error> {
+        self.fill_bytes(dest);
+        Ok(())
+    }
+}
+impl rand::CryptoRng for TapeRng {}
+
+pub fn bit(b: &[u8], i: usize) -> bool {
+    (b[i >> 3] >> (i & 7)) & 1 == 1
+}
+
+/// Seed pair built by hand: random keys, the given punctured indices, the punctured slot of the
+/// extension sender's copy holds `junk` (garbage the sender must never read) or zeros.
+pub fn hand_seeds(r: &mut impl RngCore, deltas: &[u8; TREES], junk: bool) -> (SenderOTSeed, ReceiverOTSeed) {
+    let mut s = SenderOTSeed::default();
+    let mut rs = ReceiverOTSeed::default();
+    for i in 0..TREES {
+        for j in 0..Q {
+            r.fill_bytes(&mut s.otp_enc_keys[i][j]);
+            rs.otp_dec_keys[i][j] = s.otp_enc_keys[i][j];
+        }
+        rs.random_choices[i] = deltas[i];
+        let d = deltas[i] as usize;
+        if d < Q {
+            if junk {
+                r.fill_bytes(&mut rs.otp_dec_keys[i][d]);
+            } else {
+                rs.otp_dec_keys[i][d] = [0u8; KEYB];
+            }
+        }
+    }
+    (s, rs)
+}
+
+/// Real receiver. `buf`: initial Round1Output bytes; `vx_fill`: initial byte of every v_x entry.
+/// Returns (message bytes, choices after the call, v_x bytes) or None on panic.
+pub fn real_recv(
+    sid: &[u8], sseed: &SenderOTSeed, buf: &[u8], choices: &[u8; LB], tape: &[u8], vx_fill: u8,
+) -> Option<(Vec<u8>, Vec<u8>, Vec<u8>)> {
+    let sid = sid.to_vec();
+    let sseed = *sseed;
+    let buf = buf.to_vec();
+    let choices = *choices;
+    let tape = tape.to_vec();
+    std::panic::catch_unwind(move || {
+        let mut r1: Round1Output = bytemuck::pod_read_unaligned(&buf);
+        let mut ext = bytemuck::allocation::zeroed_box::<ReceiverExtendedOutput>();
+        ext.choices = choices;
+        for a in ext.v_x.iter_mut() {
+            for b in a.iter_mut() {
+                *b = [vx_fill; 32];
+            }
+        }
+        let mut rng = TapeRng { tape, pos: 0 };
+        SoftSpokenOTReceiver::process(&sid, &sseed, &mut r1, &mut ext, &mut rng);
+        (bytemuck::bytes_of(&r1).to_vec(), ext.choices.to_vec(), bytemuck::bytes_of(&ext.v_x).to_vec())
+    })
+    .ok()
+}
+
+#[derive(Clone, PartialEq, Eq, Debug)]
+pub enum Verdict {
+    Ok(Vec<u8>, Vec<u8>),
+    Err(u32),
+    Panic,
+}
+impl Verdict {
+    pub fn tag(&self) -> String {
+        match self {
+            Verdict::Ok(..) => "ok".into(),
+            Verdict::Err(e) => format!("err{e}"),
+            Verdict::Panic => "panic".into(),
+        }
+    }
+}
+
+/// Real sender on a message given as bytes.
+pub fn real_send(sid: &[u8], rseed: &ReceiverOTSeed, msg: &[u8]) -> Verdict {
+    let sid = sid.to_vec();
+    let rseed = *rseed;
+    let msg = msg.to_vec();
+    match std::panic::catch_unwind(move || {
+        let m: Round1Output = bytemuck::pod_read_unaligned(&msg);
+        match SoftSpokenOTSender::process(&sid, &rseed, &m) {
+            Ok(o) => Verdict::Ok(bytemuck::bytes_of(&o.v_0).to_vec(), bytemuck::bytes_of(&o.v_1).to_vec()),
+            Err(SoftSpokenOTError::AbortProtocolAndBanReceiver) => Verdict::Err(1),
+        }
+    }) {
+        Ok(v) => v,
+        Err(_) => Verdict::Panic,
+    }
+}
+
+pub fn model_recv(
+    drv: &mut Driver, sid: &[u8], sseed: &SenderOTSeed, buf: &[u8], choices: &[u8], tape: &[u8],
+) -> Result<(Vec<u8>, Vec<u8>, Vec<u8>), String> {
+    let r = drv.run("c03.recv", &[hx(sid), hx(bytemuck::bytes_of(&sseed.otp_enc_keys)), hx(buf), hx(choices), hx(tape)])?;
+    if r.len() != 3 {
+        return Err(format!("bad result {:?}", r.iter().map(|s| s.len()).collect::<Vec<_>>()));
+    }
+    Ok((unhx(&r[0]), unhx(&r[1]), unhx(&r[2])))
+}
+
+pub fn model_send(drv: &mut Driver, sid: &[u8], rseed: &ReceiverOTSeed, msg: &[u8]) -> Result<Verdict, String> {
+    let r = drv.run("c03.send", &[hx(sid), hx(&rseed.random_choices), hx(bytemuck::bytes_of(&rseed.otp_dec_keys)), hx(msg)])?;
+    match r.first().map(|s| s.as_str()) {
+        Some("ok") if r.len() == 3 => Ok(Verdict::Ok(unhx(&r[1]), unhx(&r[2]))),
+        Some("err") if r.len() == 2 => Ok(Verdict::Err(u32::from_str_radix(&r[1], 16).map_err(|e| e.to_string())?)),
+        Some("panic") => Ok(Verdict::Panic),
+        _ => Err(format!("bad result {:?}", r.first())),
+    }
+}
+
+// ------------------------------------------------------------------------------------------------
+// Independent re-implementation of round one (merlin + the field multiplication hook): used by the
+// calibrated adversary of C04 and as a cross-check of the honest message.
+pub fn prg(sid: &[u8], key: &[u8; KEYB]) -> [u8; LPB] {
+    let mut ts = Transcript::new(&SOFT_SPOKEN_LABEL);
+    ts.append_message(b"", sid);
+    ts.append_message(b"", key);
+    let mut out = [0u8; LPB];
+    ts.challenge_bytes(&SOFT_SPOKEN_EXPAND_LABEL, &mut out);
+    out
+}
+
+pub fn chis_of(sid: &[u8], u: &[[u8; LPB]]) -> [[u8; SB]; 4] {
+    let mut h = Transcript::new(&SOFT_SPOKEN_LABEL);
+    h.append_message(b"session-id", sid);
+    for row in u {
+        h.append_message(b"", row);
+    }
+    let mut digest = [0u8; 32];
+    h.challenge_bytes(&SOFT_SPOKEN_MATRIX_HASH_LABEL, &mut digest);
+    std::array::from_fn(|j| {
+        let mut ts = Transcript::new(b"");
+        ts.append_u64(b"index", j as u64);
+        ts.append_message(b"", &digest);
+        let mut c = [0u8; SB];
+        ts.challenge_bytes(b"", &mut c);
+        c
+    })
+}
+
+/// Phi_chi(row) = sum_j row[16j..] * chi_j  +  row[64..80]
+pub fn phi(chis: &[[u8; SB]; 4], row: &[u8; LPB]) -> [u8; SB] {
+    let mut acc = [0u8; SB];
+    for j in 0..4 {
+        let a: [u8; SB] = row[j * SB..(j + 1) * SB].try_into().unwrap();
+        let p = verif_gf128_mul(&a, &chis[j]);
+        for k in 0..SB {
+            acc[k] ^= p[k];
+        }
+    }
+    for k in 0..SB {
+        acc[k] ^= row[4 * SB + k];
+    }
+    acc
+}
+
+pub struct RoundOne {
+    pub epc: [u8; LPB],
+    pub u: Vec<[u8; LPB]>,
+    pub v: Vec<[u8; LPB]>,
+}
+
+pub fn round_one(sid: &[u8], sseed: &SenderOTSeed, choices: &[u8; LB], tape: &[u8; SB]) -> RoundOne {
+    let mut epc = [0u8; LPB];
+    epc[..LB].copy_from_slice(choices);
+    epc[LB..].copy_from_slice(tape);
+    let mut u = vec![[0u8; LPB]; TREES];
+    let mut v = vec![[0u8; LPB]; ROWS];
+    for i in 0..TREES {
+        u[i] = epc;
+        for j in 0..Q {
+            let r = prg(sid, &sseed.otp_enc_keys[i][j]);
+            for k in 0..LPB {
+                u[i][k] ^= r[k];
+                for b in 0..4 {
+                    if (j >> b) & 1 == 1 {
+                        v[4 * i + b][k] ^= r[k];
+                    }
+                }
+            }
+        }
+    }
+    RoundOne { epc, u, v }
+}
+
+pub fn assemble(u: &[[u8; LPB]], x: &[u8; SB], t: &[[u8; SB]]) -> Vec<u8> {
+    let mut m = Vec::with_capacity(MSG_BYTES);
+    for r in u {
+        m.extend_from_slice(r);
+    }
+    m.extend_from_slice(x);
+    for r in t {
+        m.extend_from_slice(r);
+    }
+    m
+}
+
+/// The honest message and the calibrated adversary: deviation e[i] on block i of u, check values re-derived
+/// for the new u, rows of t compensated under guess g[i] of the punctured index. e = 0 gives the honest message.
+/// Returns (message bytes, the hash images A_i = Phi_chi'(e_i)).
+pub fn adversary(
+    sid: &[u8], sseed: &SenderOTSeed, choices: &[u8; LB], tape: &[u8; SB], e: &[[u8; LPB]], g: &[u8],
+) -> (Vec<u8>, Vec<[u8; SB]>) {
+    let r1 = round_one(sid, sseed, choices, tape);
+    let mut u = r1.u.clone();
+    for i in 0..TREES {
+        for k in 0..LPB {
+            u[i][k] ^= e[i][k];
+        }
+    }
+    let chis = chis_of(sid, &u);
+    let x = phi(&chis, &r1.epc);
+    let mut t = vec![[0u8; SB]; ROWS];
+    let mut images = vec![];
+    for i in 0..TREES {
+        let a = phi(&chis, &e[i]);
+        images.push(a);
+        for b in 0..4 {
+            let mut row = phi(&chis, &r1.v[4 * i + b]);
+            if (g[i] >> b) & 1 == 1 {
+                for k in 0..SB {
+                    row[k] ^= a[k];
+                }
+            }
+            t[4 * i + b] = row;
+        }
+    }
+    (assemble(&u, &x, &t), images)
+}
+
+/// The property itself on the real outputs: chosen side equal, other side different, choices recorded.
+/// `nabla_zero`: every punctured index is 0 (mod 16), the degenerate seed set for which the sender's two
+/// messages coincide (packed_nabla = 0; see ss_other_differs) -- the "other side differs" clause is void there.
+pub fn property_oracle(choices_in: &[u8; LB], choices_out: &[u8], vx: &[u8], v0: &[u8], v1: &[u8], nabla_zero: bool) -> Option<String> {
+    if choices_out != choices_in {
+        return Some("choices recorded in the receiver output differ from the requested ones".into());
+    }
+    if vx.len() != OUT_BYTES || v0.len() != OUT_BYTES || v1.len() != OUT_BYTES {
+        return Some("output size".into());
+    }
+    for j in 0..L {
+        let c = bit(choices_in, j);
+        for k in 0..W {
+            let o = (j * W + k) * 32;
+            let (chosen, other) = if c { (&v1[o..o + 32], &v0[o..o + 32]) } else { (&v0[o..o + 32], &v1[o..o + 32]) };
+            if &vx[o..o + 32] != chosen {
+                return Some(format!("transfer {j} slot {k}: receiver output differs from the sender's message for choice bit {}", c as u8));
+            }
+            if !nabla_zero && &vx[o..o + 32] == other {
+                return Some(format!("transfer {j} slot {k}: receiver output equals the sender's message for the opposite bit"));
+            }
+        }
+    }
+    None
+}
+
+pub fn choice_vector(kind: usize, r: &mut impl RngCore) -> ([u8; LB], String) {
+    let mut c = [0u8; LB];
+    let name = match kind % 7 {
+        0 => "zero".to_string(),
+        1 => {
+            c = [0xff; LB];
+            "ones".into()
+        }
+        2 => {
+            let b = (r.next_u32() as usize) % L;
+            c[b >> 3] = 1 << (b & 7);
+            format!("single{b}")
+        }
+        3 => {
+            c = [0x55; LB];
+            "alt55".into()
+        }
+        4 => {
+            c = [0xaa; LB];
+            "altaa".into()
+        }
+        5 => {
+            c[0] = 1;
+            c[LB - 1] = 0x80;
+            "ends".into()
+        }
+        _ => {
+            r.fill_bytes(&mut c);
+            "random".into()
+        }
+    };
+    (c, name)
+}
+
+pub fn seed_set(kind: usize, seed: u64, case: usize, r: &mut impl RngCore) -> (SenderOTSeed, ReceiverOTSeed, String) {
+    match kind % 6 {
+        0 => {
+            let mut g = rng(seed, &format!("c03-genseed-{case}"));
+            let (s, rs) = generate_all_but_one_seed_ot(&mut g);
+            (s, rs, "generated".into())
+        }
+        1 => {
+            let (s, rs) = hand_seeds(r, &[0u8; TREES], true);
+            (s, rs, "delta0".into())
+        }
+        2 => {
+            let (s, rs) = hand_seeds(r, &[15u8; TREES], true);
+            (s, rs, "delta15".into())
+        }
+        3 => {
+            let d: [u8; TREES] = std::array::from_fn(|i| if i % 2 == 0 { 0 } else { 15 });
+            let (s, rs) = hand_seeds(r, &d, true);
+            (s, rs, "delta0-15".into())
+        }
+        4 => {
+            let d: [u8; TREES] = std::array::from_fn(|i| (i % 16) as u8);
+            let (s, rs) = hand_seeds(r, &d, false);
+            (s, rs, "delta-cycle".into())
+        }
+        _ => {
+            let d: [u8; TREES] = std::array::from_fn(|_| (r.next_u32() % 16) as u8);
+            let (s, rs) = hand_seeds(r, &d, true);
+            (s, rs, "delta-random".into())
+        }
+    }
+}
+
+fn first_diff(a: &[u8], b: &[u8]) -> String {
+    if a.len() != b.len() {
+        return format!("lengths {} vs {}", a.len(), b.len());
+    }
+    match a.iter().zip(b).position(|(x, y)| x != y) {
+        Some(p) => format!("first difference at byte {p}: impl {:02x} model {:02x}", a[p], b[p]),
+        None => "equal".into(),
+    }
+}
+
+pub fn run(kv: &Args) -> i32 {
+    let seed = kv.u64("seed", 1);
+    let out = kv.str("out", "/verif/build/run/C03");
+    std::fs::create_dir_all(&out).unwrap();
+    let n_cases = kv.u64("cases", if kv.thorough() { 100 } else { 6 }) as usize;
+    let mut r = rng(seed, "c03");
+    let mut drv = Driver::spawn();
+    let mut log = std::fs::File::create(format!("{out}/cases.txt")).unwrap();
+    let mut n_eval = 0u64;
+    let mut n_nontrivial = 0u64;
+    let mut disagreements: Vec<String> = vec![];
+    let mut oracle_fail: Vec<String> = vec![];
+    let mut samples: Vec<String> = vec![];
+    let mut kinds: std::collections::BTreeMap<String, u64> = Default::default();
+    let mut distinct: std::collections::BTreeSet<String> = Default::default();
+
+    // ---- generate_all_but_one_seed_ot against the model, tape recovered with a replica rng
+    let n_gen = if kv.thorough() { 8 } else { 2 };
+    for case in 0..n_gen {
+        let mut g1 = rng(seed, &format!("c03-gen-{case}"));
+        let mut g2 = rng(seed, &format!("c03-gen-{case}"));
+        let (s, rs) = generate_all_but_one_seed_ot(&mut g1);
+        let mut keys = vec![];
+        for _ in 0..TREES * Q {
+            let k: [u8; KEYB] = g2.gen();
+            keys.extend_from_slice(&k);
+        }
+        let picks: Vec<u8> = (0..TREES).map(|_| g2.gen_range(0..=Q - 1) as u8).collect();
+        let m = drv.run("c03.genseed", &[hx(&keys), hx(&picks)]);
+        n_eval += 1;
+        *kinds.entry("genseed".into()).or_default() += 1;
+        let imp = (hx(bytemuck::bytes_of(&s.otp_enc_keys)), hx(&rs.random_choices), hx(bytemuck::bytes_of(&rs.otp_dec_keys)));
+        match m {
+            Ok(v) if v.len() == 3 && v[0] == imp.0 && v[1] == imp.1 && v[2] == imp.2 => {}
+            Ok(v) => disagreements.push(format!("genseed case {case}: model differs (enc {}, choices {}, dec {}) rng stream c03-gen-{case}",
+                v[0] == imp.0, v[1] == imp.1, v[2] == imp.2)),
+            Err(e) => disagreements.push(format!("genseed case {case}: model error {e}")),
+        }
+        // property of the seed pair: keys agree off the punctured index, index in range
+        for i in 0..TREES {
+            let d = rs.random_choices[i] as usize;
+            if d >= Q || (0..Q).any(|j| j != d && rs.otp_dec_keys[i][j] != s.otp_enc_keys[i][j]) {
+                oracle_fail.push(format!("generate_all_but_one_seed_ot: tree {i} violates seeds_ok, rng stream c03-gen-{case} seed {seed}"));
+                break;
+            }
+        }
+    }
+
+    // ---- receiver + sender
+    let sid_lens = [32usize, 0, 1, 100];
+    for case in 0..n_cases {
+        let sid_len = sid_lens[case % 4];
+        let mut sid = vec![0u8; sid_len];
+        r.fill_bytes(&mut sid);
+        // quick tier: 6 cases must cover generated + forced 0 / 15 / mixed seeds and all structured choice vectors
+        let (sseed, rseed, seed_name) = seed_set(case, seed, case, &mut r);
+        let (choices, choice_name) = choice_vector(if case < 7 { [6, 0, 1, 2, 3, 4, 5][case] } else { case / 2 + case }, &mut r);
+        let mut tape = [0u8; SB];
+        if case % 5 != 4 {
+            r.fill_bytes(&mut tape);
+        }
+        // reused (non-zero) Round1Output buffer in some cases: validates accumulate-vs-overwrite
+        let reuse = case % 6 == 5 || (case >= 6 && case % 4 == 3);
+        let mut buf = vec![0u8; MSG_BYTES];
+        if reuse {
+            r.fill_bytes(&mut buf);
+        }
+        let vx_fill = if case % 2 == 0 { 0 } else { 0xab };
+        let desc = format!("case {case}: sid_len={sid_len} seeds={seed_name} choices={choice_name} buffer={} sid={} choices_hex={} tape={}",
+            if reuse { "reused" } else { "default" }, hx(&sid), hx(&choices), hx(&tape));
+        writeln!(log, "{desc}").unwrap();
+        *kinds.entry(format!("seeds-{seed_name}")).or_default() += 1;
+        *kinds.entry(format!("choices-{}", choice_name.trim_end_matches(char::is_numeric))).or_default() += 1;
+        *kinds.entry(format!("sid{sid_len}")).or_default() += 1;
+        *kinds.entry(format!("buffer-{}", if reuse { "reused" } else { "default" })).or_default() += 1;
+        distinct.insert(format!("{seed_name}/{}/{sid_len}/{reuse}", choice_name.trim_end_matches(char::is_numeric)));
+
+        let imp = real_recv(&sid, &sseed, &buf, &choices, &tape, vx_fill);
+        let mdl = model_recv(&mut drv, &sid, &sseed, &buf, &choices, &tape);
+        n_eval += 1;
+        let (msg, ch_out, vx) = match imp {
+            Some(x) => x,
+            None => {
+                oracle_fail.push(format!("receiver panicked: {desc}"));
+                continue;
+            }
+        };
+        match &mdl {
+            Ok((m_msg, m_ch, m_vx)) => {
+                if *m_msg != msg {
+                    disagreements.push(format!("receiver message: {} -- {desc}", first_diff(&msg, m_msg)));
+                }
+                if *m_ch != ch_out {
+                    disagreements.push(format!("receiver choices: {} -- {desc}", first_diff(&ch_out, m_ch)));
+                }
+                if *m_vx != vx {
+                    disagreements.push(format!("receiver v_x: {} -- {desc}", first_diff(&vx, m_vx)));
+                }
+            }
+            Err(e) => disagreements.push(format!("receiver model error {e} -- {desc}")),
+        }
+        if !reuse {
+            // cross-check of the honest message with the harness's own round one
+            let (own, _) = adversary(&sid, &sseed, &choices, &tape, &vec![[0u8; LPB]; TREES], &[0u8; TREES]);
+            if own != msg {
+                disagreements.push(format!("harness re-implementation of round one differs from the real receiver: {} -- {desc}", first_diff(&msg, &own)));
+            }
+        }
+        let verdict = real_send(&sid, &rseed, &msg);
+        let mv = model_send(&mut drv, &sid, &rseed, &msg);
+        n_eval += 1;
+        match &mv {
+            Ok(m) if *m == verdict => {}
+            Ok(m) => {
+                let detail = match (&verdict, m) {
+                    (Verdict::Ok(a0, a1), Verdict::Ok(b0, b1)) => format!("v_0: {}; v_1: {}", first_diff(a0, b0), first_diff(a1, b1)),
+                    _ => format!("impl {} model {}", verdict.tag(), m.tag()),
+                };
+                disagreements.push(format!("sender: {detail} -- {desc}"));
+            }
+            Err(e) => disagreements.push(format!("sender model error {e} -- {desc}")),
+        }
+        if samples.len() < 4 {
+            samples.push(format!("{} -> message {}.. v_x {}.. sender {}", &desc[..desc.len().min(160)], hx(&msg[..8]), hx(&vx[..8]), verdict.tag()));
+        }
+        if !reuse {
+            n_nontrivial += 1;
+            match &verdict {
+                Verdict::Ok(v0, v1) => {
+                    if let Some(why) = property_oracle(&choices, &ch_out, &vx, v0, v1, rseed.random_choices.iter().all(|d| d & 15 == 0)) {
+                        oracle_fail.push(format!("{why} -- {desc} enc_keys={} random_choices={}",
+                            hx(bytemuck::bytes_of(&sseed.otp_enc_keys)), hx(&rseed.random_choices)));
+                    }
+                }
+                other => oracle_fail.push(format!("honest first-round message not accepted ({}) -- {desc} enc_keys={} random_choices={}",
+                    other.tag(), hx(bytemuck::bytes_of(&sseed.otp_enc_keys)), hx(&rseed.random_choices))),
+            }
+        } else if choices != ch_out[..] {
+            oracle_fail.push(format!("choices recorded in the receiver output differ from the requested ones -- {desc}"));
+        }
+    }
+    let mut f = std::fs::File::create(format!("{out}/result.txt")).unwrap();
+    writeln!(f, "evaluations {n_eval}").unwrap();
+    writeln!(f, "mutations {}", distinct.len().max(n_nontrivial as usize)).unwrap();
+    writeln!(f, "oracle_queries {}", drv.queries).unwrap();
+    for (k, v) in &kinds {
+        writeln!(f, "kind {k} {v}").unwrap();
+    }
+    for s in &samples {
+        writeln!(f, "SAMPLE {s}").unwrap();
+    }
+    for d in &disagreements {
+        writeln!(f, "DISAGREE {d}").unwrap();
+    }
+    for d in &oracle_fail {
+        writeln!(f, "ORACLE {d}").unwrap();
+    }
+    0
 }
